@@ -71,3 +71,39 @@ META = {
    text="Exhaustive TLC exploration of the cache specification for 3-4 keys, capacities 1-4, ttl 1-3 with explicit time; the same specification is bound to the code in both directions: TLC-generated behaviours are executed on the real cache and every recorded step is validated by TLC against the specification and the property formulas. Decides the design within the bounds and the code on every generated/driven behaviour; not a proof for all sizes.",
    note="Virtual time by the verif_age hook (ageing stored instants) instead of real sleeping; the handler-level half (a session idle beyond the timeout is not used to encrypt or accept, cache bounded) is checked on the real handler by the monitor formulas C15.StaleSessionUsed / C15.Capacity; u32 keys stand for NodeAddress in the cache part."),
 }
+
+# ------------------------------------------------------------------------------------------------ codecs (C05, C06)
+_CODEC_NOTE = ("Decision-table model + generated concrete cases: TLA+ decides the case analysis (Verdict against the rejections / acceptances the "
+               "property requires, over every abstract case) and TLC generates the cases; each case is concretised into k seeded byte strings by the "
+               "harness's independent reference encoders (own AES-128-CTR masking / own RLP, discv5.1 layout) and decoded by the real code inside a "
+               "panic guard; TLC judges the recorded observations. Totality is established on the generated classes and on seeded random / mutated "
+               "strings (unmasked-domain mutations), not on all byte strings: model-based test generation, not proof. No hook beyond the existing "
+               "byte-level facade (discv5::verif::{packet_decode, PacketView, Message}) is used.")
+META["C05"] = dict(
+    technique="TLA+ transcription of the decision structure of Packet::decode / PacketKind::decode over abstract datagrams (PacketCodec.tla: Verdict, "
+              "Required, WellFormed) checked by TLC over all 12930 abstract cases; every case replayed on the real codec (k variants) through the "
+              "byte-level facade, plus a seeded driver of unconstrained strings (lengths 0..1400, random, header-valid noise, mutations of valid "
+              "datagrams in the unmasked domain); traces validated by TLC (strict conformance to Verdict incl. the error kind + monitor formulas "
+              "C05.Panic / TooShort / TooLong / OtherId / ProtocolId / Version / Kind / AuthSize / WhoAreYouBody / Rejected / Fields / AuthData / "
+              "Layout / RoundTrip)",
+    text="Design level: for every abstract datagram (layout built x kind byte x signature/key sizes 0/64|33/255/any x record none/valid/garbage/trailing/"
+         "oversized/truncated x auth-size field exact/raised/lowered/beyond x body empty/1/mid/to 1280/over x truncation x masking id x protocol id x "
+         "version) the transcribed decision rejects what C05 lists and accepts the well-formed ones. Code level: each case is built byte-exactly by an "
+         "independent encoder and decoded by the real code: decision, decoded fields, authenticated bytes (iv || unmasked header || auth-data), "
+         "re-encoding = independent layout, decode(encode(p)) = p, never a panic; unconstrained strings: no panic and round trip of whatever is accepted.",
+    note=_CODEC_NOTE + " socket/recv.rs and send.rs only hand the datagram and the node id to these functions and are not executed. A node id that "
+         "shares its first 16 bytes with the decoder's is indistinguishable by the wire format (masking key = dest-id[..16]) and is not counted as 'another id'.")
+META["C06"] = dict(
+    technique="TLA+ transcription of the decision structure of Message::decode over abstract messages (RpcCodec.tla) checked by TLC over all 11124 "
+              "abstract cases (the NODES inner-list obligation is a separate invariant whose counterexample is replayed); every case replayed on the "
+              "real codec (k variants) with an independent RLP encoder, plus a seeded driver of unconstrained strings (random bytes, random RLP "
+              "structures around valid messages, mutations of valid encodings); traces validated by TLC (strict conformance to Verdict + monitor "
+              "formulas C06.Panic / Missing / Trailing / IdLength / Distance / Port / IpLength / Record / InnerListLength / Rejected / Fields / Layout / RoundTrip)",
+    text="Design level: for every abstract message (type 0..7 x id length 0..9 x outer list exact/truncated/over-/under-declared/trailing/string x "
+         "missing/extra/no fields x per-type classes: integers zero/small/2^64-1/9-byte/non-canonical, IP 4/16/other bytes with plain/mapped/compatible/"
+         "loopback IPv6, port 0/1../65535/3-byte, 0..16 distances <=256/>256, 0..4 records valid/bad signature/truncated/not a list, inner list "
+         "exact/short/long/string, payloads empty/1 byte/short/long) the transcribed decision rejects what C06 lists and accepts the well-formed ones. "
+         "Code level: each case is built by an independent RLP encoder and decoded by the real code: decision, decoded fields, re-encoding = "
+         "independent layout (= the input for well-formed cases), decode(encode(m)) = m, never a panic.",
+    note=_CODEC_NOTE + " Known finding on the pinned tree (F10): bytes after the inner list of a NODES response are parsed as further records "
+         "(formula C06.InnerListLength, listed in known_findings.json).")
